@@ -88,10 +88,11 @@ def floors(tier):
             f[f"{fmt}:comments:{cm}"] = 450 * k
     f.update({"incidence:shape:general": 900 * k, "incidence:shape:single-row": 300 * k, "incidence:shape:single-column": 500 * k, "incidence:shape:single-entry": 700 * k})
     f.update({"cast:none-str": 4000 * k, "cast:int": 2400 * k, "cast:str": 4000 * k})
-    for r, n, m in (("read_hif", 1000, 3000), ("read_hif_collection", 250, 800), ("read_json", 650, 1900), ("read_edgelist", 800, 2200),
-                    ("read_bipartite_edgelist", 800, 2200), ("read_incidence_matrix", 800, 2000)):
+    for r, n, m, e in (("read_hif", 1000, 1800, 1000), ("read_hif_collection", 250, 450, 200), ("read_json", 650, 1100, 600), ("read_edgelist", 800, 1300, 700),
+                       ("read_bipartite_edgelist", 800, 1300, 700), ("read_incidence_matrix", 800, 950, 700)):
         f[f"reread:{r}"] = n * k
         f[f"rewrite:{r}:distinct"] = m * k
+        f[f"rewrite:{r}:same-object-edited"] = e * k
     f.update({
         "read_json:Hypergraph": 3500 * k, "rejected:colliding-cast": 100 * k, "bipartite:dual": 1000 * k,
         "hif-collection:list": 400 * k, "hif-collection:dict": 400 * k, "json-collection:list": 300 * k, "json-collection:dict": 300 * k,
@@ -106,6 +107,8 @@ def floors(tier):
 # -------------------------------------------------------------------------------------
 REWRITTEN = "rewritten-path"                          # a different network written to a path that was written and read before
 REREAD = "read-again-after-first-result-changed"      # the same file read twice, the first result defaced in between
+EDITED = "same-object-written-again-after-in-place-edit"  # ... and the network written the second time is the first one, edited through the public API
+SECOND = (REWRITTEN, REREAD, EDITED)
 
 
 class Ctx:
@@ -164,7 +167,7 @@ class Ctx:
         mon.ev()
         mon.note(count or f"{reader}:{exp.cls if 'class' in clauses else infos[0]['cls']}")
         if exp.inc:
-            mon.nontrivial((reader, trigger in (REWRITTEN, REREAD) and trigger, variant, exp.cls, sorted(map(repr, exp.inc)), len(exp.nodes), len(exp.edges)))
+            mon.nontrivial((reader, trigger in SECOND and trigger, variant, exp.cls, sorted(map(repr, exp.inc)), len(exp.nodes), len(exp.edges)))
         d = O.diff(exp, got, clauses)
         if d and stale is not None and not O.diff(stale, got, clauses):
             self.fail(f"{reader}|{trigger}|stale-result", f"{reader} [{variant}]: the read after rewriting the path returned the network written there before: {d[0][0]}: {d[0][1]}",
@@ -192,6 +195,7 @@ class Ctx:
         control experiment: B written to and read from a fresh path - if that fails as well, B does not survive the format on its own and
         the control's firings are reported under the ordinary trigger class instead."""
         infos_a, infos_b = _infos(a), _infos(b)
+        a_before = _frozen(a)
 
         def step(item, infos, trig, stale, do_write=True):
             if do_write and self.guarded(writer, trig, lambda: (write(item), True)[1], variant, infos) is None:
@@ -218,20 +222,73 @@ class Ctx:
                 step(a, infos_a, REREAD, None, do_write=False)  # the same file passed a moment ago: whatever fires now is about reading twice
                 if self.fired:
                     return
-        if b is None:
-            return
-        self.mon.note(f"rewrite:{reader}:" + ("distinct" if differs else "same-content"))
+        trig2 = REWRITTEN
+        if b is None or rng.random() < 0.4:
+            # the second network is the first *object*, edited in place since it was written (no label it did not have before)
+            b = _edit_in_place(rng, a)
+            if b is None:
+                self.mon.note("rewrite:in-place-edit-not-usable")
+                return
+            infos_b, differs, trig2 = _infos(b), True, EDITED
+            variant += " [second write: the same object, edited in place]"
+        self.mon.note(f"rewrite:{reader}:" + ("same-object-edited" if trig2 == EDITED else "distinct" if differs else "same-content"))
         self.collecting = held = []
-        step(b, infos_b, REWRITTEN, a)
+        step(b, infos_b, trig2, a_before)
         if held:
+            # control: an equal network that was never written before, to a path that was never used before
             self.collecting = control = []
-            relocate()
-            step(b, infos_b, trigger, None)
-            held = control or held
-            self.mon.note("rewrite:control-experiments")
+            fresh = _rebuilt(b)
+            if fresh is not None:
+                relocate()
+                step(fresh, infos_b, trigger, None)
+                held = control or held
+                self.mon.note("rewrite:control-experiments")
         self.collecting = None
         for key, what, wit in held:
             self.fail(key, what, wit)
+
+
+def _is_single(item):
+    return isinstance(item, tuple)
+
+
+def _frozen(item):
+    """What `item` looked like now (its infos hold observations, which do not change when the networks are edited later)."""
+    if _is_single(item):
+        return (item[0], dict(item[1]))
+    return dict(item, nets=[(n, dict(i)) for n, i in item["nets"]])
+
+
+def _edit_in_place(rng, item):
+    nets = [item] if _is_single(item) else item["nets"]
+    out, seen = [], {}
+    for net, info in nets:
+        if id(net) in seen:  # one object under two names: edited once
+            out.append((net, seen[id(net)]))
+            continue
+        calls = O.mutate(rng, net, new_labels=False)
+        if not calls or not O.valid(net):
+            return None
+        new = dict(info, hist=info["hist"] + ["-- written and read back once; then, in place:"] + calls, src=O.obs(net))
+        if new["src"].brief() == info["src"].brief() or not new["src"].nodes or not new["src"].edges:
+            return None
+        seen[id(net)] = new
+        out.append((net, new))
+    return out[0] if _is_single(item) else dict(item, nets=out)
+
+
+def _rebuilt(item):
+    nets = [item] if _is_single(item) else item["nets"]
+    out = []
+    for net, info in nets:
+        new = O.rebuild(net)
+        if new is None:
+            return None
+        out.append((new, info))
+    if _is_single(item):
+        return out[0]
+    arg = {nm: n for nm, (n, _) in zip(item["names"], out)} if item["as_dict"] else [n for n, _ in out]
+    return dict(item, nets=out, arg=arg)
 
 
 class Loc:
@@ -343,7 +400,7 @@ def case_hif_collection(c, idx, rng):
 def _compare_collection(c, reader, kind, trig, back, names, infos, clauses, nmap, emap, variant, files, stale_infos):
     c.mon.ev()
     want = [str(nm) for nm in names]
-    second = trig in (REWRITTEN, REREAD)
+    second = trig in SECOND
     if not isinstance(back, dict) or sorted(back) != sorted(want):
         c.fail(f"{reader}|{trig if second else kind}|members-of-collection", f"{reader} [{variant}]: expected the datasets {want}, got {sorted(back) if isinstance(back, dict) else type(back).__name__}",
                    c.witness(infos, files[:1]))
@@ -623,10 +680,11 @@ def _shape_of(src):
 def case_incidence(c, idx, rng):
     enc, cm, ekw, ckw = _text_options(c, rng, "incidence")
     cls = UND[idx % 2]
-    a = _matrix_net(c, rng, cls, (SHAPES + ("general", "general"))[(idx // 2) % 6])
+    want = (SHAPES + ("general", "general"))[(idx // 2) % 6]
+    a = _matrix_net(c, rng, cls, want)
     if a is None:
         return
-    b = _matrix_net(c, rng, cls, rng.choice(SHAPES + ("general", "general")))  # whatever shape: the loc.path is what is reused
+    b = _matrix_net(c, rng, cls, want if rng.random() < 0.6 else rng.choice(SHAPES + ("general", "general")))  # mostly the same size class
     src = a[1]["src"]
     shape = _shape_of(src)  # name the trigger class by what the file looks like
     c.mon.note(f"incidence:shape:{shape}")
@@ -649,7 +707,7 @@ def case_incidence(c, idx, rng):
         return O.expected(o, npos.__getitem__, epos.__getitem__, cls="Hypergraph")
 
     def check(back, item, t, stale):
-        if t not in (REWRITTEN, REREAD):  # (the control experiment of a rewrite step reads B, whose file may have another shape than A's)
+        if t not in SECOND:  # (the control experiment of a rewrite step reads B, whose file may have another shape than A's)
             sh = _shape_of(item[1]["src"])
             t = {"single-entry": "single-row"}.get(sh, sh if sh != "general" else cls)
         c.compare("read_incidence_matrix", t, exp(item[1]["src"]), back, O.INC, variant, [item[1]], [loc.path], count=f"read_incidence_matrix:{cls}",
